@@ -88,6 +88,12 @@ func materialise(tdir string, n *node, seq *int) {
 		must(os.Symlink(t, p))
 	case "DG":
 		must(os.Symlink(filepath.Join(tdir, "does-not-exist"), p))
+	case "LL": // a link to itself: stat fails with ELOOP, not ENOENT
+		must(os.Symlink(p, p))
+	case "LN": // a link through a regular file: stat fails with ENOTDIR
+		t := filepath.Join(tdir, fmt.Sprintf("t%d", *seq))
+		must(os.WriteFile(t, []byte("x"), 0o644))
+		must(os.Symlink(filepath.Join(t, "below"), p))
 	case "FI":
 		must(syscall.Mkfifo(p, 0o644))
 	case "SO":
@@ -225,8 +231,17 @@ func runTree(a []string) (string, [][2]string) {
 	}
 	sort.Slice(files, func(i, j int) bool { return files[i][0] < files[j][0] })
 	for i := range files {
-		r := runCLIAs(uid, cwd, []string{files[i][0]}, []byte{}, nil, 10*time.Second)
-		files[i][1] = hx(r.stdout)
+		arg := files[i][0]
+		dashed := strings.HasPrefix(arg, "-")
+		if dashed {
+			arg = "./" + arg // a name that starts with '-' cannot be given as it is ("-" means standard input, "-r" is an option)
+		}
+		r := runCLIAs(uid, cwd, []string{arg}, []byte{}, nil, 10*time.Second)
+		so := r.stdout
+		if dashed && strings.HasPrefix(string(so), "./") {
+			so = so[2:]
+		}
+		files[i][1] = hx(so)
 	}
 	return cliRes(res), files
 }
@@ -444,6 +459,17 @@ func genC10(tier string, r *rng) {
 	emitTree(true, []string{"d", "e2"}, []*node{dir("d", fc("x.pub", keyLine)), dir("e2", fc("authorized_keys", keyLine), fc("y.pub", keyLine))})
 	emitTree(false, []string{"authorized_keys", "k.pub"}, []*node{fc("authorized_keys", keyLine), fc("k.pub", keyLine)})
 	emitTree(false, []string{"k.pub", "authorized_keys", "k.pub"}, []*node{fc("authorized_keys", keyLine), fc("k.pub", keyLine)})
+	// entries whose stat fails with something other than "does not exist", in every position
+	for _, k := range []string{"LL", "LN"} {
+		emitTree(true, []string{"d"}, []*node{dir("d", bad(k, "a"), f("b"), f("c"))})
+		emitTree(true, []string{"d"}, []*node{dir("d", f("a"), bad(k, "m"), f("z"))})
+		emitTree(true, []string{"d"}, []*node{dir("d", f("a"), dir("sub", f("b"), bad(k, "m"), f("z")), f("z"))})
+		emitTree(true, []string{"d"}, []*node{dir("d", bad(k, "only"))})
+	}
+	// the working directory itself as the argument, with entries named like options and like the stdin marker
+	emitTree(true, []string{"."}, []*node{f("-"), f("a"), dir("sub", f("-"), f("b")), f("-r"), f("--")})
+	emitTree(true, []string{"."}, []*node{f("-")})
+	emitTree(true, []string{"."}, []*node{dir("-", f("x")), f("y")})
 	emitTree(true, []string{"dang"}, []*node{bad("DG", "dang")})
 	emitTree(false, []string{"dang"}, []*node{bad("DG", "dang")})
 	emitTree(false, []string{"d"}, []*node{dir("d", f("a"))})
